@@ -148,7 +148,10 @@ func concChild(c ConcCase) int {
 						tornMu.Unlock()
 						stop.Store(true)
 					}
-					switch (n + i + r) % 8 {
+					switch (n + i + r) % 9 {
+					case 8:
+						_ = conf.ToString()
+						_ = conf.String()
 					case 0:
 						conf.GetValueDef(k, d.S)
 					case 1:
@@ -344,7 +347,7 @@ var (
 
 var concSpec = pbt.Register(pbt.Spec[ConcCase]{
 	Prop: "C18", Name: "concurrent-getters",
-	Rule:  "3-8 versions of a file over 2-5 keys; a child process (this binary, built with -race) creates the configuration on version 0, starts 4 readers spinning over GetValue + one of GetValueDef/GetBoolean/GetInt/GetLong/GetFloat/GetIntSet/GetStringArray/GetKeys per key, then writes and reloads every later version while the readers run, in half of the cases deleting the file and reloading (fallback to the built-in defaults) before some of the versions; the readers also watch the built-in defaults enabled and net_udp_port, which read as the default or a value a version gave them and, once a reload has found the file missing, never as empty again (optionally with an observer that calls getters inside the notification); violation = race-detector report, runtime fatal error, hang, a GetValue result that no version of the key ever had, or the last version not visible at quiescence; non-trivial = at least 2 reloads and every reader completed at least 2 rounds per reload",
+	Rule:  "3-8 versions of a file over 2-5 keys; a child process (this binary, built with -race) creates the configuration on version 0, starts 4 readers spinning over GetValue + one of GetValueDef/GetBoolean/GetInt/GetLong/GetFloat/GetIntSet/GetStringArray/GetKeys/ToString+String per key, then writes and reloads every later version while the readers run, in half of the cases deleting the file and reloading (fallback to the built-in defaults) before some of the versions; the readers also watch the built-in defaults enabled and net_udp_port, which read as the default or a value a version gave them and, once a reload has found the file missing, never as empty again (optionally with an observer that calls getters inside the notification); violation = race-detector report, runtime fatal error, hang, a GetValue result that no version of the key ever had, or the last version not visible at quiescence; non-trivial = at least 2 reloads and every reader completed at least 2 rounds per reload",
 	Quick: 96, Thorough: 3200,
 	Draw: drawConc, Run: runConc,
 })
